@@ -6,7 +6,7 @@ sys.path.insert(0,os.path.dirname(__file__))
 import driver
 for f in sorted(glob.glob(os.path.join(rundir,"cases_*.v"))):
     src=open(f).read()
-    m=re.search(r"^ \(%d%%nat, (.*)\) ::$"%cid,src,re.M)
+    m=re.search(r"^ \(%d%%(?:nat|N), (.*)\) ::$"%cid,src,re.M)
     if m:
         hdr=src[:src.index("Definition chunk0")]
         body=m.group(1)
